@@ -122,3 +122,9 @@ TEXT["C11"] = {
     "design_ref": "DESIGN.md section 3, C11",
     "level_note": "Needs go1.26.8 (shares the world with C10). Sampling over header shapes listed in the generator table plus their combinations with credentials and faults.",
 }
+TEXT["C08"] = {
+    "technique": "property-based testing of concurrent executions: rapid-generated multi-goroutine workloads and directed racing loops run under the Go race detector; recorded histories checked for linearizability with porcupine against the reference model; content/digest and never-dangling-tag invariants",
+    "level_text": "Workloads of 2-16 goroutines over a small shared key space (upload sessions shared by id, tag moves, deletes, mounts, listings), directly on ocimem and through one ociserver with concurrent clients, are executed in a -race build: a race report fails the run. Every direct execution is recorded as an invocation/response history and decided by porcupine against the sequential model of C02; every read must return bytes matching its digest. Directed families loop on the registry's two-step operations (tag flip + delete vs GetTag, commit vs write / resume / cancel on one session) with exact post-conditions. Interleavings are sampled, not enumerated: this is the property where the technique is weakest, and the evidence says how many workloads overlapped on a key.",
+    "design_ref": "DESIGN.md section 3, C08",
+    "level_note": "Scheduler-dependent; a history that fails is stored verbatim as the replay file (replay re-checks that history deterministically). porcupine timeouts are inconclusive, never violations.",
+}
